@@ -235,6 +235,41 @@ def apply_regime(rng, S, C, regime, box=120):
     return scale_translate(S, k, dx, dy), scale_translate(C, k, dx, dy), (k, dx, dy)
 
 
+def add_scanline_probes(rng, S, C, k=1, nmax=3):
+    """Aim at the sweep's handling of a scanline that falls right next to an edge crossing: for up to `nmax` proper
+    crossings of input edges add a small triangle far outside the bounding box (so general position is kept and
+    nothing else changes) with one vertex whose y is within a few units (small coordinates) or a few binary64 ulps
+    (huge coordinates) of the crossing's y.  That vertex ends a scanbeam just before/after the crossing, which is
+    where AddNewIntersectNode's out-of-scanbeam corrections and the rounding of TopX decide the solution vertex.
+    Returns new (S, C); coordinates are kept within +-(2^61 - 1)."""
+    xs = crossings(S + C)
+    if not xs:
+        return S, C
+    x0, y0, x1, y1 = bbox([S, C])
+    lim = 2 ** 61 - 1
+    cm = maxabs([S, C])
+    ulp = max(1, cm >> 52)                       # spacing of doubles at this magnitude
+    S, C = [list(p) for p in S], [list(p) for p in C]
+    w, gap = 4 * k, 8 * k
+    side = 1 if x1 + gap + nmax * 4 * w < lim else -1
+    if side == -1 and x0 - gap - nmax * 4 * w < -lim:
+        return S, C
+    rng.shuffle(xs)
+    xs = (xs * nmax)[:nmax]                      # several probes per crossing when there are few crossings
+    for i, (cx, cy) in enumerate(xs):
+        d = rng.range(-ulp // 4 - 3, ulp // 4 + 3) if rng.chance(2, 3) else rng.range(-ulp - 3, ulp + 3)
+        X = (x1 + gap + i * 4 * w) if side == 1 else (x0 - gap - (i + 1) * 4 * w)
+        h1, h2 = rng.range(2, 6) * k, rng.range(2, 6) * k
+        ye = cy + d
+        if not (-lim < ye - h2 and ye + h1 < lim):
+            continue
+        tri = [(X, ye), (X + w, ye + h1), (X + 2 * w, ye - h2)]
+        if rng.chance(1, 2):
+            tri.reverse()
+        (S if rng.chance(1, 2) else C).append(tri)
+    return S, C
+
+
 def maxabs(pss):
     m = 0
     for ps in pss:
